@@ -109,6 +109,16 @@ def oracle(chk, b, v):
                 record(chk, "key-not-json-name", inp, "keys %r are not JSON names %r" % (sorted(extra), sorted(json_names(refcls))))
         except Exception:
             pass
+    # (a') the emitted dict is the canonical one: same members, same JSON types (64-bit ints and non-finite
+    # floats as strings, bytes base64, enum names, RFC 3339 / seconds strings) as the reference printer's
+    try:
+        d = bpgen.to_py(v, b.classes).to_dict()
+        mine = sort_canon(canon_msg(d, b.schema, ci))
+        theirs = sort_canon(canon_msg(json_format.MessageToDict(ref), b.schema, ci))
+        if mine != theirs:
+            record(chk, "not-canonical", inp, "to_dict=%r reference=%r" % (d, json_format.MessageToDict(ref)))
+    except Exception:
+        pass
     # (b) reference JSON -> betterproto
     try:
         text2 = json_format.MessageToJson(ref)
@@ -356,7 +366,7 @@ def classify(failure, known):
         return None
     kind = failure["kind"]
     to_bp = kind in ("rejects-reference-json", "reads-reference-json-differently")
-    to_ref = kind in ("to-json-raises", "not-standard-json", "reference-rejects", "reference-reads-different-message")
+    to_ref = kind in ("to-json-raises", "not-standard-json", "reference-rejects", "reference-reads-different-message", "not-canonical")
     if "D17" in ids and (to_bp or to_ref) and feats & {"map-raw", "wrapper-raw"}:
         return "D17"
     if "D15" in ids and to_bp and "bad-name" in feats:
